@@ -1520,6 +1520,8 @@ def _boundary_predicate(repo: Repo, f: FuncInfo, hay: str = "", needle: str = ""
 
     if isinstance(f.node, ast.Lambda):
         return False
+    if any(isinstance(x, (ast.Raise, ast.Yield, ast.YieldFrom, ast.AugAssign, ast.Delete, ast.Global, ast.Nonlocal)) or (isinstance(x, ast.Expr) and not isinstance(x.value, ast.Constant)) or (isinstance(x, ast.Assign) and not all(isinstance(t, ast.Name) for t in x.targets)) for x in own_nodes(f.node)):
+        return False  # a predicate decides by its result only; anything else it does is a consequence of the raw test
     key = ("boundary_pred", id(repo), f.fq)
     if key in _cache:
         return _cache[key]
@@ -1954,6 +1956,10 @@ def _slice_as_prefix_test(repo: Repo, f: FuncInfo, n: ast.Subscript) -> tuple[st
                 st = needle_status(repo, f, other_side)
                 if st == "dot":
                     return "safe", "prefix compared by slicing; the prefix ends in '.'"
+                if st in ("bare", "unknown"):
+                    reason = _raw_test_is_guarded(repo, f, cmp_, n.value, other_side) if isinstance(cmp_.ops[0], ast.Eq) else None
+                    if reason is not None:
+                        return "safe", reason
                 if st == "bare":
                     return "unsafe", f"`{norm(cmp_, 80)}`: raw string prefix test (by slicing) on a module name - 'pkg.ab' counts as part of 'pkg.a'"
                 return None
@@ -1966,6 +1972,334 @@ def _slice_as_prefix_test(repo: Repo, f: FuncInfo, n: ast.Subscript) -> tuple[st
                 return "safe", "suffix compared by slicing; it starts at a '.' boundary"
             return "unsafe", f"`{norm(cmp_, 80)}`: raw string suffix test (by slicing) on a module name"
     return None
+
+
+# --------------------------------------------------------------------------- boundary evidence
+#
+# A raw prefix test (`H.startswith(N)`, `H[:len(N)] == N`) or a cut at len(N) is harmless where it is known that nothing or the
+# separator follows the first len(N) characters of H. This knowledge ("evidence") may sit anywhere: in the conditions on the path
+# to the test, in a nested `if` around everything that depends on the test, in the returned value of a predicate.
+
+
+def _value_defs(repo: Repo, f: FuncInfo) -> dict[str, ast.expr]:
+    """local_defs plus the targets of a tuple assignment (`head, sep, tail = x.partition(".")` gives head = x.partition(".")[0])."""
+    key = ("value_defs", id(repo), f.fq)
+    if key in _cache:
+        return _cache[key]
+    out = dict(local_defs(repo, f))
+    if not isinstance(f.node, ast.Lambda):
+        stores: dict[str, int] = {}
+        for n in own_nodes(f.node):
+            if isinstance(n, ast.Name) and isinstance(n.ctx, ast.Store):
+                stores[n.id] = stores.get(n.id, 0) + 1
+        for n in own_nodes(f.node):
+            if isinstance(n, ast.Assign) and len(n.targets) == 1 and isinstance(n.targets[0], (ast.Tuple, ast.List)) and not isinstance(n.value, (ast.Tuple, ast.List)):
+                for i, t in enumerate(n.targets[0].elts):
+                    if isinstance(t, ast.Name) and stores.get(t.id) == 1 and t.id not in f.param_names:
+                        out[t.id] = ast.Subscript(value=n.value, slice=ast.Constant(value=i), ctx=ast.Load())
+            elif isinstance(n, ast.Assign) and len(n.targets) == 1 and isinstance(n.targets[0], (ast.Tuple, ast.List)) and isinstance(n.value, (ast.Tuple, ast.List)) and len(n.value.elts) == len(n.targets[0].elts):
+                for t, v in zip(n.targets[0].elts, n.value.elts):
+                    if isinstance(t, ast.Name) and stores.get(t.id) == 1 and t.id not in f.param_names:
+                        out[t.id] = v
+    _cache[key] = out
+    return out
+
+
+def _expand_names(repo: Repo, f: FuncInfo, e: ast.AST, depth: int = 0):
+    """Copy of `e` in which locals with exactly one definition are replaced by that definition (recursively)."""
+    defs = _value_defs(repo, f)
+
+    def rec(x, d: int):
+        if isinstance(x, list):
+            return [rec(y, d) for y in x]
+        if not isinstance(x, ast.AST):
+            return x
+        if isinstance(x, ast.Name) and isinstance(x.ctx, ast.Load) and x.id in defs and d < 5:
+            v = defs[x.id]
+            if not isinstance(v, (ast.ListComp, ast.SetComp, ast.DictComp, ast.GeneratorExp, ast.Lambda, ast.Dict, ast.List, ast.Set, ast.Await, ast.Yield, ast.YieldFrom)):
+                return rec(v, d + 1)
+        if isinstance(x, (ast.Lambda, ast.ListComp, ast.SetComp, ast.DictComp, ast.GeneratorExp)):
+            return _clone(x)
+        new = type(x)()
+        for fld in x._fields:
+            if hasattr(x, fld):
+                setattr(new, fld, rec(getattr(x, fld), d))
+        return new
+
+    return rec(e, depth)
+
+
+def _canon(repo: Repo, f: FuncInfo, e: ast.AST) -> str:
+    try:
+        return " ".join(ast.unparse(_expand_names(repo, f, e)).split())
+    except Exception:  # noqa: BLE001
+        return norm(e, 400)
+
+
+def _separator_positions_of(repo: Repo, f: FuncInfo, e: ast.expr, hay: str, depth: int = 0) -> bool:
+    """`e` denotes the positions of the separators in the string `hay`: `[i for i, c in enumerate(hay) if c == "."]`, possibly
+    behind a local name or a helper of the same object / with hay as argument."""
+    if depth > 3:
+        return False
+    if isinstance(e, ast.Call) and isinstance(e.func, ast.Name) and e.func.id in WRAPPERS and e.args:
+        return _separator_positions_of(repo, f, e.args[0], hay, depth + 1)
+    if isinstance(e, (ast.ListComp, ast.SetComp, ast.GeneratorExp)) and len(e.generators) == 1 and isinstance(e.elt, ast.Name):
+        g = e.generators[0]
+        if isinstance(g.iter, ast.Call) and _call_name(g.iter) == "enumerate" and g.iter.args and _canon(repo, f, g.iter.args[0]) == hay and isinstance(g.target, ast.Tuple) and len(g.target.elts) == 2 and all(isinstance(x, ast.Name) for x in g.target.elts) and g.target.elts[0].id == e.elt.id:
+            ch = g.target.elts[1].id
+            return any(isinstance(c, ast.Compare) and len(c.ops) == 1 and isinstance(c.ops[0], ast.Eq) and {norm(c.left), norm(c.comparators[0])} == {ch, "'.'"} for c in g.ifs)
+        return False
+    if isinstance(e, ast.Name):
+        d = local_defs(repo, f).get(e.id)
+        return d is not None and _separator_positions_of(repo, f, d, hay, depth + 1)
+    if isinstance(e, ast.Call):
+        cs = origins(repo)._callees(f, e)
+        if len(cs) == 1 and not isinstance(cs[0].node, ast.Lambda):
+            g = cs[0]
+            rets = origins(repo)._returns(g)
+            if len(rets) != 1:
+                return False
+            # the string: the same attribute of the same object (method of the same class), or the argument bound to a parameter
+            hay_in_g = hay
+            pos_ = _positional(g)
+            for i, a in enumerate(e.args):
+                if i < len(pos_) and _canon(repo, f, a) == hay:
+                    hay_in_g = pos_[i]
+            if hay_in_g == hay and not (hay.startswith("self.") and g.cls is not None and f.cls is not None and isinstance(e.func, ast.Attribute) and norm(e.func.value) == "self"):
+                return False
+            return _separator_positions_of(repo, g, rets[0], hay_in_g, depth + 1)
+    return False
+
+
+def _evidence_polarity(repo: Repo, f: FuncInfo, x: ast.expr, H: str, N: str) -> int:
+    """+1: the (name-expanded) condition `x` being true shows that nothing or the separator follows H[:len(N)] (or H == N, or the
+    dotted prefix test itself); -1: its being false shows that; 0: no evidence."""
+    L = f"len({N})"
+    rest = f"{H}[{L}:]"
+    u = lambda t: " ".join(t.split())  # noqa: E731
+    txt = lambda e: u(ast.unparse(e))  # noqa: E731
+    if isinstance(x, ast.Call) and isinstance(x.func, ast.Name) and x.func.id == "bool" and len(x.args) == 1:
+        x = x.args[0]
+        if isinstance(x, ast.Compare):
+            return _evidence_polarity(repo, f, x, H, N)
+        t = txt(x)
+        if t == rest:
+            return -1  # falsy remainder: nothing follows
+        if t in (f"{rest}.partition('.')[0]", f"{rest}.split('.')[0]", f"{rest}.split('.', 1)[0]"):
+            return -1  # nothing before the first separator of the remainder: it is empty or starts with '.'
+        if isinstance(x, ast.Call) and isinstance(x.func, ast.Attribute) and x.func.attr == "startswith" and x.args:
+            if txt(x.func.value) == rest and _const_str(x.args[0]) == ".":
+                return 1
+            if txt(x.func.value) == H and _is_dotted_form(x.args[0], {N}):
+                return 1
+        return 0
+    if isinstance(x, ast.Compare) and len(x.ops) == 1:
+        l, op, r = x.left, x.ops[0], x.comparators[0]
+        tl, tr = txt(l), txt(r)
+        if isinstance(op, (ast.Eq, ast.NotEq)):
+            sides = {tl, tr}
+            hit = (
+                sides in ({f"{rest}[0]", "'.'"}, {f"{rest}[:1]", "'.'"}, {f"{H}[{L}]", "'.'"}, {f"{H}[{L}:{L} + 1]", "'.'"}, {rest, "''"}, {H, N}, {f"len({H})", L})
+                or sides in ({f"{rest}.partition('.')[0]", "''"}, {f"{H}.find('.', {L})", L})
+            )
+            if hit:
+                return 1 if isinstance(op, ast.Eq) else -1
+            return 0
+        if isinstance(op, (ast.In, ast.NotIn)):
+            sign = 1 if isinstance(op, ast.In) else -1
+            if tl in (f"{rest}[:1]", f"{H}[{L}:{L} + 1]"):
+                consts = None
+                if isinstance(r, (ast.Tuple, ast.List, ast.Set)) and all(_const_str(e_) is not None for e_ in r.elts):
+                    consts = {_const_str(e_) for e_ in r.elts}
+                elif _const_str(r) is not None:
+                    consts = {"", *list(_const_str(r))}
+                if consts is not None and consts <= {"", "."}:
+                    return sign
+            if tl == L and _separator_positions_of(repo, f, r, H):
+                return sign
+        return 0
+    return 0
+
+
+def _evidence_goal(repo: Repo, f: FuncInfo, formula, hay_e: ast.expr, needle_e: ast.expr):
+    """Disjunction of the literals of `formula` that are boundary evidence for (hay, needle); None if there is none."""
+    from core.guards import atom as mk, atoms_of, f_not, f_or
+
+    H, N = _canon(repo, f, hay_e), _canon(repo, f, needle_e)
+    lits = []
+    for a in atoms_of(formula):
+        e = _parse_atom(a)
+        if e is None:
+            continue
+        pol = _evidence_polarity(repo, f, _expand_names(repo, f, e), H, N)
+        if pol > 0:
+            lits.append(mk(a))
+        elif pol < 0:
+            lits.append(f_not(mk(a)))
+    return f_or(lits) if lits else None
+
+
+def _has_evidence(repo: Repo, f: FuncInfo, formula, hay_e: ast.expr, needle_e: ast.expr) -> bool:
+    from core.guards import implies
+
+    goal = _evidence_goal(repo, f, formula, hay_e, needle_e)
+    if goal is None:
+        return False
+    try:
+        return implies(formula, goal)
+    except AnalysisError:
+        return False
+
+
+def _is_remainder_def(repo: Repo, f: FuncInfo, st: ast.AST, H: str, N: str) -> bool:
+    """`rest = H[len(N):]` / `head, sep, tail = H[len(N):].partition(".")` / `n = len(N)`: definitions, not consequences."""
+    if not isinstance(st, (ast.Assign, ast.AnnAssign)) or getattr(st, "value", None) is None:
+        return False
+    t = _canon(repo, f, st.value)
+    rest = f"{H}[len({N}):]"
+    return t == rest or t.startswith(rest + ".partition(") or t.startswith(rest + "[") or t in (f"len({N})", f"len({H})") or t.startswith(f"{H}.removeprefix({N})")
+
+
+def _raw_test_is_guarded(repo: Repo, f: FuncInfo, test: ast.expr, hay_e: ast.expr, needle_e: ast.expr) -> str | None:
+    """A raw prefix test `test` (truthy = H starts with the plain string N) is harmless if
+      (a) the conditions on the path to it already are boundary evidence, or
+      (b) the truth of the value it is part of implies evidence (predicate: `return H.startswith(N) and H[len(N):][:1] in ("", ".")`), or
+      (c) every statement / comprehension element that is only reached when it holds is additionally guarded by evidence.
+    Returns the reason, or None."""
+    from core.guards import atoms_of, f_and, f_not, f_or, implies, to_formula
+
+    from .common import copy_prop, guard_formula
+
+    if isinstance(f.node, ast.Lambda) and not isinstance(test, ast.expr):
+        return None
+    try:
+        g0 = guard_formula(f, test)
+        if _has_evidence(repo, f, g0, hay_e, needle_e):
+            return "the next character is known to be the separator (or absent) on every path to this prefix test"
+        subst = copy_prop(f)
+        raw = to_formula(test, subst)
+        raw_atoms = atoms_of(raw)
+        if len(raw_atoms) != 1:
+            return None
+        H, N = _canon(repo, f, hay_e), _canon(repo, f, needle_e)
+        # (b) the value the test is part of
+        st = stmt_of(test)
+        top = test
+        while parent(top) is not None and isinstance(parent(top), (ast.BoolOp, ast.UnaryOp, ast.IfExp, ast.Compare)) and parent(top) is not st:
+            top = parent(top)
+        value_stmt = isinstance(st, (ast.Return, ast.Assign, ast.AnnAssign)) and getattr(st, "value", None) is top or isinstance(f.node, ast.Lambda)
+        if value_stmt or (isinstance(parent(top), ast.Call) and top in parent(top).args) or isinstance(parent(top), (ast.ListComp, ast.GeneratorExp, ast.SetComp, ast.keyword)):
+            whole = f_and([guard_formula(f, top), to_formula(top, subst)])
+            goal = _evidence_goal(repo, f, whole, hay_e, needle_e)
+            if goal is not None and implies(whole, f_or([f_not(raw), goal])):
+                return "the value this raw prefix test is part of is only true when the next character is the separator or absent"
+            if value_stmt or not isinstance(parent(top), ast.comprehension):
+                # the value of the raw test escapes (returned, stored, collected): consequences cannot be followed here
+                if not (isinstance(st, (ast.Assign, ast.AnnAssign)) and isinstance(getattr(st, "targets", [None])[0] if isinstance(st, ast.Assign) else st.target, ast.Name)):
+                    return None
+        # (c) consequences
+        effects: list[ast.AST] = []
+        if not isinstance(f.node, ast.Lambda):
+            for n in own_nodes(f.node):
+                if isinstance(n, (ast.Return, ast.Expr, ast.Assign, ast.AugAssign, ast.AnnAssign, ast.Raise, ast.Delete, ast.Break, ast.Continue)):
+                    effects.append(n)
+                elif isinstance(n, (ast.ListComp, ast.SetComp, ast.GeneratorExp)):
+                    effects.append(n.elt)
+                elif isinstance(n, ast.DictComp):
+                    effects += [n.key, n.value]
+                elif isinstance(n, ast.IfExp):
+                    effects += [n.body, n.orelse]
+        dependent = 0
+        for e_ in effects:
+            if any(x is test for x in ast.walk(e_)):
+                continue  # the test itself is evaluated inside: covered by (b)
+            ge = guard_formula(f, e_)
+            if not (raw_atoms <= atoms_of(ge)) or not implies(ge, raw):
+                continue
+            if isinstance(e_, ast.stmt) and _is_remainder_def(repo, f, e_, H, N):
+                continue
+            dependent += 1
+            whole = ge
+            if isinstance(e_, ast.Return) and e_.value is not None:
+                v = to_formula(e_.value, subst)
+                if v == ("const", False):
+                    continue  # "no": never wrong for a string that only has the raw prefix
+                whole = f_and([ge, v]) if isinstance(e_.value, (ast.BoolOp, ast.Compare, ast.UnaryOp, ast.Call)) and _evidence_goal(repo, f, f_and([ge, v]), hay_e, needle_e) is not None and _evidence_goal(repo, f, ge, hay_e, needle_e) is None else ge
+            if not _has_evidence(repo, f, whole, hay_e, needle_e):
+                return None
+        if dependent:
+            return "everything that depends on this raw prefix test is additionally guarded by a test of the next character"
+    except AnalysisError:
+        return None
+    return None
+
+
+def _remainder_uses(repo: Repo, f: FuncInfo, n: ast.AST, hay_e: ast.expr, needle_e: ast.expr) -> tuple[bool, bool]:
+    """How the string left after cutting len(N) characters off H is used: (every use is a boundary test itself,
+    every use is such a test or guarded by one). (False, False) if it escapes."""
+    from .common import guard_formula
+
+    if isinstance(f.node, ast.Lambda):
+        return False, False
+    H, N = _canon(repo, f, hay_e), _canon(repo, f, needle_e)
+
+    def single_store(var: str) -> bool:
+        return var not in f.param_names and len([x for x in own_nodes(f.node) if isinstance(x, ast.Name) and x.id == var and isinstance(x.ctx, ast.Store)]) == 1
+
+    def loads(var: str) -> list[ast.AST]:
+        return [x for x in own_nodes(f.node) if isinstance(x, ast.Name) and x.id == var and isinstance(x.ctx, ast.Load)]
+
+    st = stmt_of(n)
+    if isinstance(st, ast.Assign) and st.value is n and len(st.targets) == 1 and isinstance(st.targets[0], ast.Name):
+        if not single_store(st.targets[0].id):
+            return False, False
+        uses = loads(st.targets[0].id)
+    else:
+        uses = [n]
+    if not uses:
+        return False, False
+    only_tests, guarded, tested = True, True, False
+    work = list(uses)
+    while work:
+        u_ = work.pop()
+        x = u_
+        is_test = False
+        for _ in range(4):
+            p = parent(x)
+            if p is None or isinstance(p, ast.stmt):
+                break
+            x = p
+            probe = ast.Call(func=ast.Name(id="bool", ctx=ast.Load()), args=[x], keywords=[]) if not isinstance(x, ast.Compare) else x
+            if _evidence_polarity(repo, f, _expand_names(repo, f, probe), H, N) != 0:
+                is_test = True
+                break
+        p = parent(u_)
+        if is_test or (isinstance(p, ast.UnaryOp) and isinstance(p.op, ast.Not)) or isinstance(p, (ast.If, ast.While, ast.BoolOp)) or (isinstance(p, ast.IfExp) and p.test is u_) or (isinstance(p, ast.Call) and _call_name(p) in ("len", "bool")):
+            tested = True
+            continue
+        if isinstance(p, ast.Attribute) and p.attr in ("partition", "split") and isinstance(parent(p), ast.Call):
+            # taken apart at the separator: the parts are looked at instead
+            call = parent(p)
+            if not (call.args and _const_str(call.args[0]) == "."):
+                return False, False
+            cst = stmt_of(call)
+            if isinstance(cst, ast.Assign) and cst.value is call and len(cst.targets) == 1 and isinstance(cst.targets[0], (ast.Tuple, ast.List)) and all(isinstance(t, ast.Name) for t in cst.targets[0].elts):
+                for t in cst.targets[0].elts:
+                    if not single_store(t.id):
+                        return False, False
+                    work += loads(t.id)
+                continue
+            if isinstance(parent(call), ast.Subscript):
+                work.append(parent(call))
+                continue
+            return False, False
+        only_tests = False
+        try:
+            if not _has_evidence(repo, f, guard_formula(f, u_), hay_e, needle_e):
+                guarded = False
+        except AnalysisError:
+            guarded = False
+    return only_tests and tested, guarded and tested
 
 
 def _remainder_only_examined(repo: Repo, f: FuncInfo, n: ast.AST) -> bool:
@@ -2034,6 +2368,11 @@ def _slice_by_len(repo: Repo, f: FuncInfo, n: ast.AST, other_e: ast.expr, bounda
             return "safe", "the remainder is only examined by the boundary test of this predicate"
         if _remainder_only_examined(repo, f, n):
             return "safe", "the remainder is only tested to be empty or to start with the separator"
+        only_tests, guarded = _remainder_uses(repo, f, n, hay_e, other_e)
+        if only_tests:
+            return "safe", "the remainder is only tested to be empty or to start with the separator"
+        if guarded and raw_a and implies(facts, f_or([*safe_a, *raw_a])):
+            return "safe", "after the raw prefix test the remainder is used only where it was tested to be empty or to start with the separator"
         if raw_a and implies(facts, f_or([*safe_a, *raw_a])):
             return "unsafe", f"`{norm(n, 60)}` cuts a module name at the length of another string without a boundary-safe prefix test"
     except AnalysisError:
@@ -2103,6 +2442,24 @@ def _slice_by_len_at(repo: Repo, g: FuncInfo, at: ast.AST, hay_e: ast.expr, othe
 
 
 # --------------------------------------------------------------------------- the scan
+
+
+def _only_compared_with_zero(repo: Repo, f: FuncInfo, call: ast.Call) -> bool:
+    """The result of `x.find(p)` / `x.index(p)` is used for nothing but `== 0` / `!= 0` (directly or through one local)."""
+
+    def is_zero_test(u: ast.AST) -> bool:
+        p = parent(u)
+        return isinstance(p, ast.Compare) and len(p.ops) == 1 and isinstance(p.ops[0], (ast.Eq, ast.NotEq)) and any(isinstance(x, ast.Constant) and x.value == 0 and x.value is not False for x in (p.left, p.comparators[0]))
+
+    if is_zero_test(call):
+        return True
+    st = stmt_of(call)
+    if isinstance(st, ast.Assign) and st.value is call and len(st.targets) == 1 and isinstance(st.targets[0], ast.Name) and not isinstance(f.node, ast.Lambda):
+        var = st.targets[0].id
+        stores = [x for x in own_nodes(f.node) if isinstance(x, ast.Name) and x.id == var and isinstance(x.ctx, ast.Store)]
+        loads = [x for x in own_nodes(f.node) if isinstance(x, ast.Name) and x.id == var and isinstance(x.ctx, ast.Load)]
+        return len(stores) == 1 and bool(loads) and all(is_zero_test(x) for x in loads)
+    return False
 
 
 def _zip_in_all(call: ast.Call) -> bool:
@@ -2215,6 +2572,10 @@ def _scan(repo: Repo) -> list[Site]:
                         if not safe and _boundary_predicate(repo, f, norm(hay), norm(needle)):
                             safe, why = True, "raw prefix test inside a predicate that also requires the next character to be '.' or absent"
                             boundary_funcs.add(f.fq)
+                        if not safe and len(parts) == 1 and op == "startswith":
+                            reason = _raw_test_is_guarded(repo, f, n, hay, needle)
+                            if reason is not None:
+                                safe, why = True, reason
                         if not safe and op == "removeprefix" and st == "bare" and len(parts) == 1:
                             v, w = _slice_by_len(repo, f, n, needle, boundary_funcs, hay_e=hay)
                             if v == "safe":
@@ -2237,6 +2598,8 @@ def _scan(repo: Repo) -> list[Site]:
                         if const is not None:
                             group = "separator"
                             why = "only the separator '.' is searched" if safe else f"`{norm(n, 80)}`: a module name is cut / searched at {const!r}, not at the separator '.'"
+                        elif op in ("find", "index") and _only_compared_with_zero(repo, f, n) and needle_status(repo, f, needle) == "dot":
+                            safe, why = True, "the position of a prefix that ends in '.' is only compared with 0: a prefix test on whole dotted components"
                         else:
                             why = f"`{norm(n, 80)}`: substring search inside a module name ignores component boundaries"
                     else:  # replace
